@@ -177,6 +177,17 @@ def lossyHist (p : Lossy.Para) : List String → Option (List String)
 
 /-! edit histories on a lossless document (C04/C05) -/
 
+/-- `str::cmp` (byte-wise on UTF-8 = code-point-wise) ≠ Greater -/
+def strLe : Str → Str → Bool
+  | [], _ => true
+  | _ :: _, [] => false
+  | a :: as, b :: bs => if a.toNat < b.toNat then true else if a.toNat > b.toNat then false else strLe as bs
+
+def optLe : Option Str → Option Str → Bool
+  | none, _ => true
+  | some _, none => false
+  | some a, some b => strLe a b
+
 def startDoc (f : String) : Option Doc :=
   match f.splitOn "." with
   | ["t", t] => do
@@ -186,6 +197,11 @@ def startDoc (f : String) : Option Doc :=
   | ["w", t] => do
     let s ← decStr t
     let w ← deb822Wrap none none (parse s).tree
+    let kids := w.children
+    pure { kids := kids, handles := (paraPositions kids).map some }
+  | ["ws", t] => do
+    let s ← decStr t
+    let w ← deb822Wrap (some fun a b => optLe (Deb.get a "Package".toList) (Deb.get b "Package".toList)) none (parse s).tree
     let kids := w.children
     pure { kids := kids, handles := (paraPositions kids).map some }
   | ["d", d] => do
@@ -252,17 +268,6 @@ def histRun (d : Doc) : List String → Option (List String × Doc)
     pure (s!"{ret}={encStr d'.root.text}|{showHandles d'}" :: rest, dEnd)
 
 /-! wrap-and-sort (C07) -/
-
-/-- `str::cmp` (byte-wise on UTF-8 = code-point-wise) ≠ Greater -/
-def strLe : Str → Str → Bool
-  | [], _ => true
-  | _ :: _, [] => false
-  | a :: as, b :: bs => if a.toNat < b.toNat then true else if a.toNat > b.toNat then false else strLe as bs
-
-def optLe : Option Str → Option Str → Bool
-  | none, _ => true
-  | some _, none => false
-  | some a, some b => strLe a b
 
 /-- the "one per line" formatter used for Uploaders: split on ',', trim, join with ",\n" -/
 def fmtCommaLines (_k v : Str) : Str :=
